@@ -189,7 +189,12 @@ pub fn explore_mix(cipher: &'static str, ring: bool, threads: Vec<Vec<Call>>) ->
     let before = EXECUTIONS.load(Ordering::SeqCst);
     let threads = Arc::new(threads);
     REAL_THREADS.store(false, Ordering::SeqCst);
-    shuttle::check_dfs(
+    // check_dfs with a roomier coroutine stack than shuttle's default 60 KiB (a handshake and 64 KiB messages run on
+    // it; a snow that keeps a message-sized scratch array on the stack must not crash the explorer)
+    let mut config = shuttle::Config::default();
+    config.stack_size = 4 << 20;
+    let runner = shuttle::Runner::new(shuttle::scheduler::DfsScheduler::new(None, false), config);
+    runner.run(
         move || {
             YIELD_ON.store(false, Ordering::SeqCst);
             // Everything that touches snow happens inside the controlled execution (in the shuttle-mapped
@@ -221,7 +226,6 @@ pub fn explore_mix(cipher: &'static str, ring: bool, threads: Vec<Vec<Call>>) ->
             }
             YIELD_ON.store(false, Ordering::SeqCst);
         },
-        None,
     );
     let n = EXECUTIONS.load(Ordering::SeqCst) - before;
     let v = bad.lock().unwrap().clone();
